@@ -311,7 +311,7 @@ class Gen(object):
                 return query.Or([nq] + [self.tree(max(0, depth - 1)) for _ in range(rng.randint(1, 2))])
             return query.Not(nq)
         if depth == 0 or rng.random() < 0.25:
-            if self.spans and rng.random() < 0.06:
+            if self.spans and rng.random() < 0.10:
                 return self.span_leafish()
             return self.leaf()
         r = rng.random()
@@ -324,14 +324,23 @@ class Gen(object):
             out = [sub() for _ in range(n)]
             if out and rng.random() < 0.25:      # duplicate clause (de-duplication)
                 out.insert(rng.randrange(len(out) + 1), copy.deepcopy(rng.choice(out)))
-            if out and rng.random() < 0.25:      # near-duplicate: same clause but for one attribute (must survive de-duplication)
-                out.insert(rng.randrange(len(out) + 1), near_duplicate(rng, rng.choice(out)))
+            if out and rng.random() < 0.3:       # near-duplicate: same clause but for one attribute (must survive de-duplication)
+                pos = [c for c in out if isinstance(c, (query.Sequence, query.Phrase, _cls("spans", "SpanQuery")))]
+                out.insert(rng.randrange(len(out) + 1), near_duplicate(rng, rng.choice(pos or out)))
             if out and rng.random() < 0.15:      # same clause with another boost
                 c = rng.choice(out)
                 if not is_null(c):
                     out.append(c.with_boost(rng.choice(BOOSTS)))
             return out
         lo = 0 if self.mode == "B" else 1
+        if self.spans and rng.random() < 0.07:
+            # de-duplication probe: clauses that differ in one attribute only must both survive normalize()
+            x = self.span_leafish() if rng.random() < 0.7 else query.Phrase("t", [rng.choice(["alfa", "bravo", "al"]) for _ in range(2)], slop=1)
+            ch = [x, near_duplicate(rng, x)] + ([sub()] if rng.random() < 0.3 else [])
+            rng.shuffle(ch)
+            if self.mode == "A2" or rng.random() < 0.6:
+                return query.Or(ch)
+            return query.And(ch)
         if r < 0.24:
             if self.mode == "A2":
                 q = query.Require(sub(), sub())
@@ -1000,7 +1009,7 @@ def run(ctx):
     from vf import model
     model.check_analysis()
     check_extra_analysis()
-    for idx in ctx.cases(quick=22, thorough=45):
+    for idx in ctx.cases(quick=30, thorough=45):
         rng = ctx.rng(idx)
         ctx.reseed_global(idx)
         nested = rng.random() < 0.15
